@@ -80,7 +80,7 @@ class Run:
         if self.failed:
             raise HarnessError(self.failed)
 
-    def execute(self, prefix):
+    def execute(self, prefix, strict=True):
         threads = [threading.Thread(target=self._main, args=(t,), daemon=True) for t in range(self.n)]
         for t, th in enumerate(threads):  # start one at a time: only one thread ever runs
             th.start()
@@ -95,7 +95,9 @@ class Run:
             if i < len(prefix):
                 t = prefix[i]
                 if t not in enabled:
-                    raise HarnessError(f"replay diverged: choice {i}={t} not enabled ({enabled})")
+                    if strict:
+                        raise HarnessError(f"replay diverged: choice {i}={t} not enabled ({enabled})")
+                    t = cur if cur in enabled else enabled[0]
             else:
                 t = cur if cur in enabled else enabled[0]
             self.steps.append((t, enabled, cur, preempt))
@@ -145,9 +147,11 @@ def explore(make, traced_files, bound, roots=None, limit=None, only_lines=None):
 
 
 def run_one(make, traced_files, choices, only_lines=None):
-    """Replay exactly `choices` (then the default policy). Returns (choices, trace, obs)."""
+    """Replay `choices` (a choice that is not enabled - the code under test may have changed since
+    the schedule was recorded - falls back to the default policy), then the default policy.
+    Returns (choices, trace, obs)."""
     fns, observe = make()
-    run = Run(fns, traced_files, only_lines).execute(list(choices))
+    run = Run(fns, traced_files, only_lines).execute(list(choices), strict=False)
     return [s[0] for s in run.steps], run.trace, observe()
 
 
